@@ -13,13 +13,13 @@ tests=$(grep -oE "^func (Test[A-Za-z0-9_]+)" $out/demo_test.go | awk '{print $2}
 res=""
 # 1. demo passes on unchanged code
 cp $out/demo_test.go $target
-go test -vet=off -count=1 -run "^($tests)$" $pkg > /tmp/vs1.log 2>&1; r1=$?
+go test -vet=off -count=1 -run "^($tests)$" $pkg > /tmp/vs1.$id.log 2>&1; r1=$?
 # 2. with change: demo fails
 git apply $out/patch.diff || { echo "patch does not apply"; exit 3; }
-go test -vet=off -count=1 -run "^($tests)$" $pkg > /tmp/vs2.log 2>&1; r2=$?
+go test -vet=off -count=1 -run "^($tests)$" $pkg > /tmp/vs2.$id.log 2>&1; r2=$?
 # 3. with change, without demo: suite passes
 rm -f $target
-go build ./... > /tmp/vs3.log 2>&1 && go test -vet=off -count=1 ./... >> /tmp/vs3.log 2>&1; r3=$?
+go build ./... > /tmp/vs3.$id.log 2>&1 && go test -vet=off -count=1 ./... >> /tmp/vs3.$id.log 2>&1; r3=$?
 git checkout -q -- . ; git clean -fdq -e _out
 echo "$id-$v demo_clean_rc=$r1 demo_mutant_rc=$r2 suite_mutant_rc=$r3 target=$target tests=$tests"
 if [ $r1 -eq 0 ] && [ $r2 -ne 0 ] && [ $r3 -eq 0 ]; then
@@ -38,5 +38,5 @@ json.dump(meta,open('/verif/seeded/%s/meta.json'%v,'w'),indent=1)
 PY
   echo "KEPT $d"
 else
-  echo "REJECTED"; tail -5 /tmp/vs1.log /tmp/vs2.log /tmp/vs3.log
+  echo "REJECTED"; tail -5 /tmp/vs1.$id.log /tmp/vs2.$id.log /tmp/vs3.$id.log
 fi
